@@ -36,6 +36,9 @@ var specAttribute = map[string]string{
 }
 
 type gen struct {
+	arenaMode bool // byte strings are carved out of one shared buffer, back to back
+	arena     []byte
+	arenaOff  int
 	r     *rand.Rand
 	wf    bool // only well-formed message values (the hypothesis of C01)
 	depth int
@@ -109,6 +112,15 @@ func (g *gen) bytesv() []byte {
 	b := make([]byte, n, n+9)
 	for i, full := n, b[:cap(b)]; i < len(full); i++ {
 		full[i] = spareSentinel
+	}
+	if g.arenaMode && n <= 40 {
+		// the byte strings of this value are adjacent sub-slices of ONE buffer (nonce || ciphertext || tag cut into fields):
+		// what lies behind a field is the next field's data
+		if g.arena == nil || g.arenaOff+n > len(g.arena) {
+			g.arena, g.arenaOff = make([]byte, 512), 0
+		}
+		b = g.arena[g.arenaOff : g.arenaOff+n]
+		g.arenaOff += n
 	}
 	switch g.pick(3) {
 	case 0:
